@@ -30,9 +30,10 @@ m = {
     "not_applicable": [],
 }
 engines = {}
+ready = set(open(os.path.join(ROOT, "ready.txt")).read().split())
 for cid in sorted(checks):
     c = checks[cid]
-    if c.get("disabled"):
+    if c.get("disabled") or cid not in ready:
         continue
     m["checks"].append({
         "property_id": cid,
